@@ -106,7 +106,10 @@ let eval (a : string list) : string =
         (a, int_of_n (n_of_hex ver), { op_api = a; op_ver = n_of_hex ver; op_off = z_of_hex off })
       | _ -> failwith "bad op") (split_on ',' ops) in
     let stream = if frames = "." then [] else List.concat_map bytes_of_hex (split_on ',' frames) in
-    let stream = if cut = "-" then stream else take (int_of_n (n_of_hex cut)) stream in
+    (* "s<k>" / "es<k>": split delivery (the peer writes frame 1 in two pieces / with the later frames
+       already queued): the same byte stream for the model *)
+    let stream = if cut = "-" || cut.[0] = 's' || (String.length cut > 1 && cut.[0] = 'e' && cut.[1] = 's')
+                 then stream else take (int_of_n (n_of_hex cut)) stream in
     let st = ref { closed = false; corr = z_of_int 1; cfg_topic = topic; offset = z_of_int (-1) } in
     let s = ref stream in
     let inflight = ref (z_of_int 0) in
@@ -136,7 +139,10 @@ let eval_n (a : string list) : string =
         (a, (if ver = "-" then 0 else int_of_n (n_of_hex ver)), z_of_hex off)
       | _ -> failwith "bad op") (split_on ',' ops) in
     let stream = if frames = "." then [] else List.concat_map bytes_of_hex (split_on ',' frames) in
-    let stream = if cut = "-" then stream else take (int_of_n (n_of_hex cut)) stream in
+    (* "s<k>" / "es<k>": split delivery (the peer writes frame 1 in two pieces / with the later frames
+       already queued): the same byte stream for the model *)
+    let stream = if cut = "-" || cut.[0] = 's' || (String.length cut > 1 && cut.[0] = 'e' && cut.[1] = 's')
+                 then stream else take (int_of_n (n_of_hex cut)) stream in
     let c = ref ({ closed = false; corr = z_of_int 0; cfg_topic = topic; offset = z_of_int (-1) }, None) in
     let s = ref stream in
     let toks = List.map (fun (api, ver, off) ->
